@@ -74,7 +74,7 @@ impl ross_protocol::interface::can::verif_sim::Instance for CanDev {
 
 // ---------- serial port (serialport::SerialPort + std::io) ----------
 // rx tokens: 0..=255 byte, 256 TimedOut, 257 other io error, 258 Interrupted.
-// write answers: n < 0x1000 accept up to n bytes (0 = Ok(0)), 0x1000 Interrupted, 0x1001 io error; exhausted = accept everything.
+// write answers: n < 0x1000 accept up to n bytes (0 = Ok(0)), 0x1000 Interrupted, 0x1001 io error, 0x1002 TimedOut error; exhausted = accept everything.
 #[derive(Default)]
 pub struct SerSt { pub rx: VecDeque<u16>, pub ans: VecDeque<u32>, pub flush_ok: bool, pub tx: Vec<u8>, pub spins: u32, pub max_read: usize }
 #[derive(Clone)]
@@ -106,6 +106,7 @@ impl std::io::Write for SerDev {
             None => { s.tx.extend_from_slice(buf); Ok(buf.len()) }
             Some(0x1000) => Err(std::io::Error::new(std::io::ErrorKind::Interrupted, "interrupted")),
             Some(n) if n < 0x1000 => { let k = buf.len().min(n as usize); s.tx.extend_from_slice(&buf[..k]); Ok(k) }
+            Some(0x1002) => Err(std::io::Error::new(std::io::ErrorKind::TimedOut, "write timed out")),
             Some(_) => Err(std::io::Error::new(std::io::ErrorKind::Other, "io error")),
         }
     }
